@@ -121,4 +121,7 @@ def violation (h : Hdr) (fs : List (Bytes × Bytes)) : Option String :=
     harness with the real CanonicalHeaderKey), pairwise distinct -/
 def keysOK (h : Hdr) : Bool := h.all fun kv => isToken kv.1
 
+/-- keys are tokens in canonical form (what `CanonicalMIMEHeaderKey` returns), i.e. what every frontend stores -/
+def keysCanon (h : Hdr) : Bool := h.all fun kv => isToken kv.1 && canon kv.1 == kv.1
+
 end BfeVerif.C26
